@@ -145,6 +145,11 @@ func NewStd(o *kernel.Outcome, tape *kernel.Tape, opt StdOptions) (*World, error
 	w.Store.TypedNil = tape.Sub("cfg-typed-nil").Bool(1, 2)
 	w.Store.WrapSentinels = tape.Sub("cfg-wrap-sentinels").Bool(1, 2)
 	w.Store.UnknownClientAs = tape.Sub("cfg-unknown-client").Pick("", "", "oauth", "oauth-wrapped")
+	w.Store.EmptyAudience = tape.Sub("cfg-empty-aud").Bool(1, 2)
+	w.Store.TrustJWTExpiry = tape.Sub("cfg-jwt-expiry").Bool(1, 2)
+	if w.Store.TrustJWTExpiry {
+		o.Probe("storages-that-leave-jwt-expiry-to-the-library")
+	}
 	if !opt.NoCustomClaims && cfg.Bool(1, 2) {
 		// deliberately colliding names: custom data must never replace registered claims
 		w.Store.CustomClaims = map[string]any{"tenant": "t1", "iss": "https://evil.example", "sub": "mallory", "aud": []string{"evil"}, "exp": 1, "azp": "evil"}
